@@ -6,7 +6,8 @@
 (* InvReadFresh through MultiTierCache.get.                                  *)
 EXTENDS Tiered
 
-CONSTANTS K, Cap1, Cap2, Pol, Promo, Dev, NP, N1, N2, N3, Kinds, Gaps, Pre, L2Pre, CL1, CL2, RL, WL, DL, TTLv, SS
+CONSTANTS K, Cap1, Cap2, Pol, Promo, Dev, NP, N1, N2, N3, Kinds, Gaps, Pre, L2Pre, CL1, CL2, RL, WL, DL, TTLv, SS,
+          UseScript    \* "none": TLC chooses the programs; "rewrite": the directed program below
 
 NOps == <<N1, N2, N3>>
 Back0 == [k \in 1..K |-> IF k \in Pre THEN 100 + k ELSE 0]
@@ -36,6 +37,12 @@ View == <<s, ops, heap, now, ctr, left, h, st0, idx, reads, nv, fin, finalBack>>
 Lat(l) == CASE l = "CL1" -> CL1 [] l = "CL2" -> CL2 [] l = "RL" -> RL [] l = "WL" -> WL [] l = "DL" -> DL
             [] OTHER -> 0
 Choices == { c \in [kind : Kinds, k : Keys, gap : Gaps] : c.kind = "invall" => c.k = 1 }
+C(kind, k, gap) == [kind |-> kind, k |-> k, gap |-> gap]
+\* directed program for "l1_put_rewrites_backing_late" (five operations in three processes, beyond the
+\* exhaustive bounds): put A lands at 2 and rewrites the backing store at 4, put B lands at 3; the third
+\* client invalidates key 1 after A landed and fetches it so that the fetch lands right after A's late write.
+Script == << <<C("put", 1, 0)>>, <<C("inv", 2, 0), C("inv", 1, 2), C("get", 1, 0)>>, <<C("put", 1, 1)>> >>
+Pick(p, i) == IF UseScript = "none" THEN Choices ELSE {Script[p][i]}
 RECURSIVE Perms(_)
 Perms(S) == IF S = {} THEN {<<>>} ELSE UNION { { <<x>> \o q : q \in Perms(S \ {x}) } : x \in S }
 
@@ -45,7 +52,7 @@ Init ==
     /\ h = InitHist([K |-> K], Back0)
     /\ left = [p \in Procs |-> NOps[p]]
     /\ st0 = [p \in Procs \cup {FIN} |-> 0]
-    /\ \E c \in [Procs -> Choices] :
+    /\ \E c \in { f \in [Procs -> Choices \cup UNION { Pick(p, 1) : p \in Procs }] : \A p \in Procs : f[p] \in Pick(p, 1) } :
           /\ ops = [p \in Procs \cup {FIN} |-> IF p = FIN THEN MNoOp ELSE MNewOp(c[p].kind, c[p].k, 0)]
           /\ heap = { [t |-> c[p].gap, q |-> p, p |-> p] : p \in Procs }
           /\ plog = [p \in Procs |-> <<c[p]>>]
@@ -100,7 +107,7 @@ Run ==
                              alldone == (\A q \in Procs : l1[q] = 0) /\ (heap \ {e}) = {}
                          IN /\ left' = l1 /\ ctr' = ctr + 1
                             /\ IF l1[p] > 0
-                               THEN /\ \E c \in Choices :
+                               THEN /\ \E c \in Pick(p, Len(plog[p]) + 1) :
                                           /\ ops' = [ops EXCEPT ![p] = MNewOp(c.kind, c.k, 0)]
                                           /\ plog' = [plog EXCEPT ![p] = Append(@, c)]
                                           /\ heap' = (heap \ {e}) \cup {[t |-> e.t + c.gap, q |-> ctr + 1, p |-> p]}
